@@ -126,7 +126,7 @@ def _dyadic(r, lo=-64, hi=64, den=(1, 2, 4, 8)):
     return r.randint(lo, hi) / r.choice(den)
 
 
-def _mappings(r, dtype, M, nested, first_lut=False, single_firsts=None):
+def _mappings(r, dtype, M, nested, first_lut=False, single_firsts=None, equal_labels=False):
     """-> (mappings argument for the constructor, description list per channel of dicts)"""
     from highdicom.pm import RealWorldValueMapping
     from pydicom.sr.codedict import codes
@@ -136,9 +136,13 @@ def _mappings(r, dtype, M, nested, first_lut=False, single_firsts=None):
     out, desc = [], []
     for j in range(M):
         ms, ds_ = [], []
-        for k in range(r.choice([1, 1, 2, 3])):
-            label = f'L{j}_{k}'
-            unit = units[(j + k) % 3]
+        if equal_labels and j > 0:
+            n_maps = len(desc[0])         # the channels carry the SAME labels (and units), but different mappings
+        else:
+            n_maps = r.choice([1, 1, 2, 3])
+        for k in range(n_maps):
+            label = f'L_{k}' if equal_labels else f'L{j}_{k}'
+            unit = units[(k if equal_labels else j + k) % 3]
             if single_firsts is not None and k == 0:
                 # a table with ONE entry (first == last): pydicom hands such a table back as a bare number
                 first = last = single_firsts[j]
@@ -161,6 +165,8 @@ def _mappings(r, dtype, M, nested, first_lut=False, single_firsts=None):
             else:
                 slope = r.choice([1.0, 1.0, _dyadic(r), _dyadic(r, 1, 32)])
                 icpt = r.choice([0.0, 0.0, _dyadic(r)])
+                if equal_labels:
+                    icpt = float(int(icpt)) + 8.0 * j + 0.5 * k     # equal labels, certainly different mappings
                 if is_float:
                     rng = r.choice([(-1e30, 1e30), (-1.0, 1.0), (0.0, 100.0)])
                 else:
@@ -318,8 +324,11 @@ def _pm_case(ctx, idx):
         # every channel's first mapping is a one-entry table and the channel's planes hold exactly that value (one pixel
         # of the last plane may lie outside: that frame must be refused)
         profile = 'lut-single'
+    # several channels whose mappings carry the SAME labels (the library's own tests label everything '1') but differ in
+    # slope / intercept / table: what is attached to a frame must be the mappings of ITS channel, not "the" mappings of a label
+    equal_labels = M >= 2 and ctx.rng('pm-eqlabel', idx).random() < 0.6
     d = {'idx': idx, 'dtype': dtype, 'source': kind, 'ndim': ndim, 'N': n, 'M': M, 'ts': ts, 'rows': rows, 'cols': cols,
-         'layout': layout, 'explicit_pos': explicit_pos, 'profile': profile}
+         'layout': layout, 'explicit_pos': explicit_pos, 'profile': profile, 'equal_labels': equal_labels}
     return d, r, shape
 
 
@@ -343,7 +352,7 @@ def _build_pm(ctx, d, r, shape):
             a.reshape(-1)[-1] += 1
     a = _layout(a, d['layout'])
     maps, desc = _mappings(r, d['dtype'], d['M'], nested=(d['ndim'] == 4), first_lut=(d.get('profile') == 'lut-per-channel'),
-                           single_firsts=single_firsts)
+                           single_firsts=single_firsts, equal_labels=d.get('equal_labels', False))
     src, src_pos, cs = _sources(ctx, d['idx'], r, d['source'], d['N'], d['rows'], d['cols'])
     kw = {}
     pos = src_pos
@@ -503,6 +512,21 @@ def _check_pm(ctx, idx, reqs, pending):
         s4, v = _try(lambda: im.pixel_array)
         obs(f'{tag}/pixel_array', s4 == 'ok' and _raw_equal(_as_shape(v, want.shape), want), v if s4 != 'ok' else None, None,
             float=is_float)
+        # the same reads AGAIN on the same object, which now holds the decoded pixel array: what a read returns must not
+        # depend on what was read before (single-frame maps included: a map built from a 2-D array has one frame)
+        def shp(s_, v_):
+            return v_ if s_ != 'ok' else f'shape {np.asarray(v_).shape} / values differ after pixel_array was read'
+        s2, v = _try(im.get_stored_frames, [s + 1 for s in sel])
+        obs(f'{tag}/reread-get_stored_frames', s2 == 'ok' and _raw_equal(v, want[sel]), shp(s2, v), sel, float=is_float, frames=F)
+        s3, v = _try(im.get_stored_frames)
+        obs(f'{tag}/reread-get_stored_frames-all', s3 == 'ok' and _raw_equal(v, want), shp(s3, v), None, float=is_float, frames=F)
+        for f in sorted({0, F - 1}):
+            s1, v = _try(im.get_stored_frame, f + 1)
+            obs(f'{tag}/reread-get_stored_frame', s1 == 'ok' and _raw_equal(v, planes[f]), shp(s1, v), f, float=is_float, frames=F)
+        if not is_float:
+            s9, v = _try(im.get_frames, [s + 1 for s in sel], apply_real_world_transform=False, apply_modality_transform=False,
+                         apply_voi_transform=False, apply_presentation_lut=False, dtype=want.dtype)
+            obs(f'{tag}/reread-get_frames', s9 == 'ok' and _raw_equal(v, want[sel]), shp(s9, v), sel, frames=F)
         # real-world value mapping attached to the frame
         for f in range(F):
             i, j = divmod(f, M)
@@ -856,6 +880,25 @@ def _check_sc(ctx, label, dt, ba, shape, pi, ts, cs, idx, layout='c', big_values
                 _twelve_fail(ctx, dict(case, path=name), detail, 'sc-decode')
             else:
                 ctx.fail(dict(case, path=name), detail, site='sc-decode')
+    # the one frame through highdicom's own image interface, before and AFTER the decoded pixel array was touched on the
+    # same object (a read must not depend on what was read before); stored values, so not for YBR (decode converts)
+    if pi not in ('YBR_FULL', 'YBR_FULL_422') and not twelve and idx % 2 == 0:
+        for lazy in (False, True):
+            tag = 'lazy' if lazy else 'eager'
+            sI, im = _try(hd.imread, io.BytesIO(blob), lazy_frame_retrieval=lazy)
+            if sI != 'ok':
+                ctx.fail(dict(case, path=f'{tag}/open'), im, site='sc-image-read')
+                continue
+            for step in ('first', 'after-pixel_array'):
+                s1, got = _try(im.get_stored_frames)
+                ok = s1 == 'ok' and np.asarray(got).shape == (1,) + want.shape and \
+                    bool(np.array_equal(np.asarray(got).astype(np.int64), want.astype(np.int64)[None]))
+                ctx.case(kind='sc', path=f'{tag}/get_stored_frames/{step}', outcome='ok' if ok else 'FAIL')
+                if not ok:
+                    ctx.fail(dict(case, path=f'{tag}/get_stored_frames/{step}'),
+                             got if s1 != 'ok' else f'shape {np.asarray(got).shape} instead of {(1,) + want.shape} / values differ',
+                             site='sc-image-read')
+                _try(lambda: im.pixel_array)
     # attributes of the image pixel module that a reader relies on (L1): PS3.5 8.1.1 -- Bits Allocated is 1 or a
     # multiple of 8; 12-bit data are 12 bits stored in 16 allocated
     exp_ba, exp_bs = (16, 12) if ba == 12 else (ba, ba)
